@@ -171,13 +171,17 @@ def plan_b(seed, tier, g):
         (CR if 'cr' in classes else [])
     T = ''.join(g.choice(alpha) for _ in range(g.choice([0, 1, 2, 5, 9, 20, 70])))
     nl = len(ref_lines(translate(T)))
-    mk = g.choice(['num_lines', 'is_empty', 'equals_file', 'equals_prog', 'equals_lit'])
+    mk = g.choice(['num_lines', 'is_empty', 'equals_file', 'equals_prog', 'equals_lit', 'any_line', 'every_line',
+                   'grep_num_lines'])
     other = None
     if mk == 'num_lines':
         k = g.choice([nl, nl, nl + 1, max(0, nl - 1)])
         m = {'kind': mk, 'n': k}
-    elif mk == 'is_empty':
+    elif mk in ('is_empty', 'any_line', 'every_line'):
         m = {'kind': mk}
+    elif mk == 'grep_num_lines':
+        k0 = sum(1 for l in ref_lines(translate(T)) if 'a' in l)
+        m = {'kind': mk, 'n': g.choice([k0, k0, k0 + 1])}
     else:
         r = g.random()
         if r < 0.5:
@@ -424,6 +428,12 @@ def _matcher_syntax(m, w):
         return 'num-lines == %d' % m['n']
     if k == 'is_empty':
         return 'is-empty'
+    if k == 'any_line':
+        return 'any line : contents matches a'
+    if k == 'every_line':
+        return 'every line : contents matches a'
+    if k == 'grep_num_lines':
+        return '-transformed-by grep a num-lines == %d' % m['n']
     if k == 'equals_file':
         return 'equals -contents-of -rel-home exp.txt'
     if k == 'equals_prog':
@@ -438,6 +448,12 @@ def expected_b(plan):
         return len(ref_lines(T)) == m['n']
     if m['kind'] == 'is_empty':
         return T == ''
+    if m['kind'] == 'any_line':
+        return any('a' in l for l in ref_lines(T))
+    if m['kind'] == 'every_line':
+        return all('a' in l for l in ref_lines(T))
+    if m['kind'] == 'grep_num_lines':
+        return sum(1 for l in ref_lines(T) if 'a' in l) == m['n']
     other = m['other'] if m['kind'] == 'equals_lit' else translate(m['other'])
     return other == T
 
